@@ -211,7 +211,7 @@ impl<'a> Gen<'a> {
     }
 
     pub fn expr(&mut self, ty: Ty, depth: usize) -> Expr {
-        if self.rng.chance(1, 60) && ty != Ty::Small && ty != Ty::Range {
+        if self.rng.chance(1, 150) && ty != Ty::Small && ty != Ty::Range {
             // deliberately ill-typed operand
             self.stats.ill_typed_injected += 1;
             let t = self.random_ty();
@@ -499,10 +499,21 @@ impl<'a> Gen<'a> {
     /// condition of `if`/`while`/`switch`: mostly a comparison that involves a variable; sometimes
     /// a bare value (truthiness of 0, '', [] …)
     pub fn cond(&mut self, d: usize) -> Expr {
-        let e = if self.rng.chance(1, 5) {
+        let e = if self.rng.chance(1, 8) {
             let t = self.random_ty();
-            if self.rng.chance(1, 3) { self.literal_truthiness() } else { self.expr(t, d + 1) }
-        } else if self.rng.chance(3, 5) {
+            if self.rng.chance(1, 3) {
+                self.literal_truthiness()
+            } else {
+                // truthiness of a variable of any kind (0, '' and [] are truthy)
+                match self.pick_var(Ty::Any) {
+                    Some(v) => {
+                        self.spend(1);
+                        Expr::Var(v.id)
+                    }
+                    None => self.expr(t, d + 1),
+                }
+            }
+        } else if self.rng.chance(4, 5) {
             // comparison with a variable on one side
             match self.pick_numeric_or_str() {
                 Some((v, t)) => {
@@ -951,6 +962,14 @@ impl<'a> Gen<'a> {
     pub fn program(&mut self) -> Expr {
         let mut es = vec![];
         // a few initial variables of different kinds
+        // an integer variable first (conditions compare against it), then a few of random kinds
+        {
+            let v = self.fresh(Ty::Int);
+            self.spend(2);
+            let rhs = self.literal(Ty::Int);
+            self.set_live(v);
+            es.push(Expr::Assign(v, b(rhs)));
+        }
         let n_init = 1 + self.rng.below(4);
         for _ in 0..n_init {
             es.push(self.assign_stmt(1));
